@@ -259,3 +259,44 @@ def plan_C06(chk, tier, seed):
 
 
 PLANS.update({"C06": plan_C06})
+
+
+def plan_C07(chk, tier, seed):
+    cfgs = ["none", "all"]
+    deep = "TRUE" if tier == "thorough" else "FALSE"
+    simple(chk, "MC_AuthData", cfgs, ["C07"], ["TypeOK", "AuthDataLayout", "OutputCanonical", "Emit"],
+           extra_constants="    Deep = %s\n" % deep)
+    return ("16 flag sets x 8 counters x 2 flavours; attested credential data with aaguid of 0/16/17 bytes, public key "
+            "of 0/77/200 bytes and credential-id lengths 0..8, +-3 around every fit/overflow frontier (thorough: every "
+            "length 0..700) and 65534..70000; every subset of extension outputs in both flavours, also combined with "
+            "attested data at the frontier; TLC checks the layout with an independent inverse (ParseBack at fixed "
+            "offsets) and the exact fit/overflow decision; vectors replayed through AuthenticatorData::serialize")
+
+
+def plan_C08(chk, tier, seed):
+    simple(chk, "MC_U2f", ["none"], ["C08"], ["TypeOK", "U2fParse", "Emit"], workers=12)
+    return ("every class byte 0x00..0xFF x instruction classes x data; all 256 instructions x {class 0, 1}; all 256 P1 "
+            "(x P2 0/255) for instructions 1-3; 30 data classes (0..256 bytes, authenticate bodies with consistent and "
+            "inconsistent key-handle length bytes up to 255/256) x the four ISO 7816-4 length encodings; malformed "
+            "framings; TLC checks the decision list (U2fParse) and the Factorisation lemma that makes the axis-wise "
+            "enumeration complete; both entry points (CommandView and &Command) are run for every vector")
+
+
+def plan_C09(chk, tier, seed):
+    deep = "TRUE" if tier == "thorough" else "FALSE"
+    simple(chk, "MC_U2fResp", ["none"], ["C09"], ["TypeOK", "U2fEncode", "Emit"], extra_constants="    Deep = %s\n" % deep)
+    return ("register / authenticate / version responses with part lengths chosen so that the total crosses every "
+            "instantiated buffer capacity (0..80, 255..258, 320..330, 1024, 1100, 1500) within +-2 and falls inside "
+            "every part in turn, pre-filled buffers of 0/1/7 bytes, counters at every byte boundary, all header / "
+            "presence extremes, key-handle lengths up to 255; register::Response::new")
+
+
+def plan_C10(chk, tier, seed):
+    simple(chk, "MC_Dispatch", ["none", "all"], ["C10"], ["TypeOK", "ExactlyOneHandler", "Emit"])
+    return ("10 CTAP2 request variants (three vendor codes, both credential-management codes) x success and six "
+            "distinct handler errors x authenticators with and without a large-blobs handler, 4 CTAP1 requests x "
+            "success and three status words; a recording mock logs every handler invocation with the projected "
+            "arguments; both entry points (call_ctap2 / call_ctap1 and Rpc::call) are run and compared")
+
+
+PLANS.update({"C07": plan_C07, "C08": plan_C08, "C09": plan_C09, "C10": plan_C10})
